@@ -11,7 +11,7 @@ META = dict(
 )
 
 TOL = '0x1p-20'
-PRE = gates.COQ_HEADER + 'From VF Require Import Sim.Ref Xform.Routing.\n'
+PRE = gates.COQ_HEADER + 'From VF Require Import Sim.Ref Xform.Routing Xform.Gateset.\n'
 NC_TAG = 'c07_no_compile'
 
 
@@ -283,6 +283,7 @@ def compile_stream(ctx, mods, checks, per_target):
             bad = [op for op in out.all_operations() if not gs.validate(op)]
             if bad or not gs.validate(out):
                 report_compile(ctx, mods, rec, f'optimize_for_target_gateset({tname}) left {len(bad)} operation(s) the target does not accept, e.g. {str(bad[:2])[:200]}')
+            output_membership_checks(ctx, mods, tname, gs, out, checks, rec)
             # (ii) same unitary up to global phase, evaluated in Coq from each operation's own matrix
             try:
                 lhs, rhs = gop_list(cirq, circuit, qs), gop_list(cirq, out, qs)
@@ -347,6 +348,268 @@ def confirm_compile(mods, rec):
     sig = f'compile:{clause}:{names}' if names else f'compile:{clause}:{rec["target"]}:{rec["input_kind"]}'
     return False, detail, sig, rec
 
+
+
+
+# ---------------------------------------------------------------- abstract descriptions for the membership model
+class Unmodelled(Exception):
+    pass
+
+
+def circ_close(a, b, period=2.0, atol=1e-8):
+    d = abs((a - b) % period)
+    return min(d, period - d) <= atol
+
+
+class Describer:
+    """Gate / operation / family / gateset -> Gallina terms of Xform/Gateset.v.  Type ids follow class objects, tag ids
+    follow tag equality, value classes follow the gate's own ==; for every gate the list of instance-family gates it
+    equals up to global phase is computed here (phase_equal).  Families must be described before the gates."""
+
+    def __init__(self, cirq):
+        self.cirq = cirq
+        self.types, self.tags, self.vals, self.insts = {}, [], [], []
+
+    def type_id(self, cls):
+        return self.types.setdefault(cls, len(self.types))
+
+    def tag_id(self, tag):
+        for i, t in enumerate(self.tags):
+            if type(t) is type(tag) and t == tag:
+                return i
+        self.tags.append(tag)
+        return len(self.tags) - 1
+
+    def tag_list(self, tags):
+        return gates.nlist([self.tag_id(t) for t in tags])
+
+    def val_id(self, g):
+        for i, h in enumerate(self.vals):
+            try:
+                if h == g:
+                    return i
+            except Exception:
+                pass
+        self.vals.append(g)
+        return len(self.vals) - 1
+
+    def inst_id(self, h):
+        """Id of an instance-family gate (registered while describing families)."""
+        for i, x in enumerate(self.insts):
+            if x is h:
+                return i
+        self.insts.append(h)
+        return len(self.insts) - 1
+
+    def phase_equal(self, g, h):
+        """cirq.equal_up_to_global_phase as documented for gates, re-derived with numpy: two EigenGates must belong to the
+        same eigen-family (the class their own equality uses) and have equal matrices up to phase; otherwise equal
+        matrices up to phase; gates without a matrix fall back on ==."""
+        cirq = self.cirq
+        if cirq.is_parameterized(g) or cirq.is_parameterized(h):
+            return False
+        if isinstance(g, cirq.EigenGate) and isinstance(h, cirq.EigenGate) and g._value_equality_values_cls_() is not h._value_equality_values_cls_():
+            return False
+        if cirq.has_unitary(g) and cirq.has_unitary(h):
+            if cirq.qid_shape(g) != cirq.qid_shape(h):
+                return False
+            return phase_dist(np.asarray(cirq.unitary(g)), np.asarray(cirq.unitary(h))) <= 1e-8
+        try:
+            return bool(g == h)
+        except Exception:
+            return False
+
+    def phase_list(self, g):
+        return [i for i, h in enumerate(self.insts) if self.phase_equal(g, h)]
+
+    def gate(self, g):
+        cirq = self.cirq
+        b = lambda x: 'true' if x else 'false'
+        mro = [self.type_id(c) for c in type(g).mro()]
+        sym = cirq.is_parameterized(g)
+        is_int = False
+        if isinstance(g, cirq.EigenGate) and not sym:
+            is_int = int(g.exponent) == g.exponent
+        sub = f'(Some {self.gate(g.sub_gate)})' if isinstance(g, cirq.ParallelGate) else 'None'
+        return (f'(GD {gates.nlist(mro)} {self.val_id(g)} {gates.nlist(self.phase_list(g))} {b(sym)} {b(is_int)} {cirq.num_qubits(g)} '
+                f'{b(cirq.has_unitary(g))} {b(isinstance(g, (cirq.MeasurementGate, cirq.WaitGate)))} {sub})')
+
+    def op(self, op):
+        cirq = self.cirq
+        if op.gate is not None:
+            return f'(OGate {self.gate(op.gate)} {self.tag_list(op.tags)})'
+        if isinstance(op.untagged, cirq.CircuitOperation):
+            inner = [self.op(o) for o in op.untagged.mapped_circuit(deep=True).all_operations()]
+            return f'(OCircuit {self.tag_list(op.tags)} [{"; ".join(inner)}])'
+        return f'(OOther {self.tag_list(op.tags)})'
+
+    def item(self, x):
+        cirq = self.cirq
+        if isinstance(x, cirq.Operation):
+            g = f'(Some {self.gate(x.gate)})' if x.gate is not None else 'None'
+            return f'(IOp {g} {self.tag_list(x.tags)})'
+        return f'(IGate {self.gate(x)})'
+
+    def base(self, f):
+        if isinstance(f.gate, type):
+            return f'(BType {self.type_id(f.gate)})'
+        return f'(BInst {self.val_id(f.gate)} {self.inst_id(f.gate)} {"true" if f._ignore_global_phase else "false"})'
+
+    def family(self, f):
+        cirq = self.cirq
+        t = type(f)
+        if t is cirq.GateFamily:
+            k = f'(FBase {self.base(f)})'
+        elif t is cirq.AnyIntegerPowerGateFamily:
+            k = f'(FIntPow {self.type_id(f.gate)})'
+        elif t is cirq.ParallelGateFamily:
+            k = f'(FParallel {self.base(f)} {coq.opt(f._max_parallel_allowed, lambda x: f"{x}%nat")})'
+        elif t is cirq.AnyUnitaryGateFamily:
+            k = f'(FAnyUnitary {coq.opt(f._num_qubits, lambda x: f"{x}%nat")})'
+        else:
+            raise Unmodelled(t.__name__)
+        return f'(mkF {k} {self.tag_list(sorted(f.tags_to_accept, key=repr))} {self.tag_list(sorted(f.tags_to_ignore, key=repr))})'
+
+    def gateset(self, gs):
+        cirq = self.cirq
+        fams = '; '.join(self.family(f) for f in sorted(gs.gates, key=repr))
+        banned = [gs._intermediate_result_tag] if isinstance(gs, cirq.CompilationTargetGateset) else []
+        return f'(mkGS [{fams}] {"true" if gs._unroll_circuit_op else "false"} {self.tag_list(banned)})'
+
+
+GS_PRE = gates.COQ_HEADER + 'From VF Require Import Xform.Gateset.\n'
+
+
+def membership_items(mods, rng):
+    """Gates and operations probing every branch of the membership rules."""
+    cirq, cg, ci = mods['cirq'], mods['cirq_google'], mods['cirq_ionq']
+    import sympy
+    q = cirq.LineQubit.range(4)
+    e = lambda: gates.draw_exp(rng)
+    gs = [cirq.X, cirq.XPowGate(), cirq.X ** 0.5, cirq.X ** e(), cirq.rx(math.pi), cirq.rx(0.3), cirq.Y, cirq.ry(math.pi), cirq.Y ** e(), cirq.Z, cirq.S, cirq.T,
+          cirq.rz(math.pi), cirq.Z ** e(), cirq.Z ** 3, cirq.H, cirq.H ** 0.5, cirq.H ** 3, cirq.CZ, cirq.CZ ** 0.5, cirq.CZ ** 3, cirq.CZ ** 2, cirq.CZ ** -1,
+          cirq.CZPowGate(exponent=1, global_shift=0.5), cirq.CNOT, cirq.CNOT ** 2, cirq.CX ** 0.5, cirq.CNOT ** 3, cirq.SWAP, cirq.SWAP ** 0.5, cirq.SWAP ** 3,
+          cirq.ISWAP, cirq.SQRT_ISWAP, cirq.SQRT_ISWAP_INV, cirq.ISWAP ** -0.5, cirq.ISWAP ** 3.5, cirq.ISWAP ** 2.5, cirq.ISWAP ** 4.5, cg.SYC,
+          cirq.FSimGate(math.pi / 2, math.pi / 6), cirq.FSimGate(math.pi / 2, 0.3), cirq.PhasedXZGate(x_exponent=e(), z_exponent=e(), axis_phase_exponent=e()),
+          cirq.PhasedXPowGate(phase_exponent=e(), exponent=e()), cirq.XX ** e(), cirq.XX, cirq.YY ** e(), cirq.ZZ ** e(), cirq.ms(0.3), cirq.CCZ, cirq.CCX,
+          cirq.CCZ ** 2, cirq.CCZ ** 0.5, cirq.CCX ** 3, cirq.MeasurementGate(1, 'k'), cirq.MeasurementGate(2, 'kk'), cirq.I, cirq.IdentityGate(2),
+          cirq.GlobalPhaseGate(1j), cirq.MatrixGate(gates.random_unitary(rng, 2)), cirq.MatrixGate(gates.random_unitary(rng, 4)),
+          cirq.MatrixGate(np.diag([1, 1, 1, -1]).astype(complex)), cirq.ParallelGate(cirq.H, 2), cirq.ParallelGate(cirq.X ** 0.3, 3),
+          cirq.ParallelGate(cirq.Y, 2), ci.GPIGate(phi=0.2), ci.GPI2Gate(phi=0.1), ci.MSGate(phi0=0.1, phi1=0.2), ci.ZZGate(theta=0.25),
+          cirq.WaitGate(cirq.Duration(nanos=10)), cirq.X ** sympy.Symbol('a'), cirq.CZ ** sympy.Symbol('b'), cirq.ControlledGate(cirq.Z), cirq.ControlledGate(cirq.X),
+          cirq.QubitPermutationGate([1, 0]), cirq.CSWAP, cirq.ResetChannel(), cirq.depolarize(0.1), cirq.PhasedISwapPowGate(phase_exponent=0.25, exponent=0.5)]
+    items = []
+    tags = [(), (), ('native_iswap',), (NC_TAG,), ('_default_merged_k_qubit_unitaries',), (cg.PhysicalZTag(),), ('acc',), ('ign',), ('acc', 'ign'), ('other', 7)]
+    for g in gs:
+        items.append(g)
+        n = cirq.num_qubits(g)
+        if n <= 4:
+            op = g.on(*q[:n])
+            items.append(op)
+            t = rng.choice(tags)
+            if t:
+                items.append(op.with_tags(*t))
+            if rng.random() < 0.3:
+                items.append(op.with_tags(*rng.choice(tags[2:])))
+    sub1 = cirq.FrozenCircuit(cirq.CZ(q[0], q[1]), cirq.PhasedXZGate(x_exponent=0.1, z_exponent=0.2, axis_phase_exponent=0.3).on(q[0]))
+    sub2 = cirq.FrozenCircuit(cirq.CZ(q[0], q[1]), cirq.ISWAP(q[1], q[2]))
+    sub3 = cirq.FrozenCircuit(cirq.CircuitOperation(sub1), cirq.X(q[2]) ** 0.5)
+    sub4 = cirq.FrozenCircuit(cirq.CZ(q[0], q[1]).with_tags('_default_merged_k_qubit_unitaries'))
+    items += [cirq.CircuitOperation(sub1), cirq.CircuitOperation(sub2), cirq.CircuitOperation(sub3), cirq.CircuitOperation(sub1).with_tags('acc'),
+              cirq.CircuitOperation(sub1).with_tags('_default_merged_k_qubit_unitaries'), cirq.CircuitOperation(sub4), cirq.CircuitOperation(sub1, repetitions=2),
+              cirq.CircuitOperation(cirq.FrozenCircuit()), cirq.X(q[0]).with_classical_controls('k'), cirq.CZ(q[0], q[1]).with_classical_controls('k').with_tags('acc'),
+              cirq.Z(q[0]).controlled_by(q[1]), cirq.X(q[0]).controlled_by(q[1]).with_tags('acc')]
+    return items
+
+
+def extra_gatesets(mods):
+    """Hand-made gatesets exercising tag lists, instance families without phase, the special families and unroll_circuit_op."""
+    cirq, cg = mods['cirq'], mods['cirq_google']
+    GF = cirq.GateFamily
+    return {
+        'tags': cirq.Gateset(GF(cirq.ZPowGate, tags_to_accept=['acc']), GF(cirq.XPowGate, tags_to_ignore=['ign']), GF(cirq.CZ, tags_to_accept=['acc', 'other'], tags_to_ignore=['ign']),
+                             GF(cirq.ISWAP, tags_to_ignore=['acc'])),
+        'physz': cirq.Gateset(GF(cirq.ZPowGate, tags_to_accept=[cg.PhysicalZTag()]), GF(cirq.ZPowGate, tags_to_ignore=[cg.PhysicalZTag()]), cirq.CZ, unroll_circuit_op=False),
+        'exact_instances': cirq.Gateset(GF(cirq.X, ignore_global_phase=False), GF(cirq.CZ, ignore_global_phase=False), GF(cirq.SQRT_ISWAP), cirq.H, cirq.MeasurementGate),
+        'special': cirq.Gateset(cirq.AnyIntegerPowerGateFamily(cirq.CZPowGate), cirq.AnyIntegerPowerGateFamily(cirq.CCXPowGate), cirq.ParallelGateFamily(cirq.H),
+                                cirq.ParallelGateFamily(cirq.XPowGate, max_parallel_allowed=2), cirq.AnyUnitaryGateFamily(1), cirq.IdentityGate),
+        'any_unitary': cirq.Gateset(cirq.AnyUnitaryGateFamily(), unroll_circuit_op=False),
+        'base_gate': cirq.Gateset(cirq.EigenGate, cirq.MeasurementGate),
+        'empty': cirq.Gateset(),
+    }
+
+
+def membership_stream(ctx, mods, n_rounds):
+    """Cirq's `x in gateset`, `gateset.validate(x)` and `x in family` against the model, for every item x family/gateset (both answers occur)."""
+    cirq = mods['cirq']
+    rng = ctx.rng
+    gsets = {t: make_target(mods, t) for t in TARGETS}
+    gsets.update(extra_gatesets(mods))
+    shards = []
+    for rnd in range(n_rounds):
+        items = membership_items(mods, rng)
+        for gname, gs in gsets.items():
+            d = Describer(cirq)
+            try:
+                gterm = d.gateset(gs)
+            except Unmodelled as e:
+                ctx.mark_broken('model:gateset-family', f'gateset {gname} has a family kind the model does not cover: {e}')
+                continue
+            rows, meta = [], []
+            fams = sorted(gs.gates, key=repr)
+            for it in items:
+                is_op = isinstance(it, cirq.Operation)
+                try:
+                    ans_in = it in gs
+                except AssertionError as e:
+                    ans_in = 'AssertionError'
+                if is_op:
+                    try:
+                        ans_val = gs.validate(it)
+                    except AssertionError:
+                        ans_val = 'AssertionError'
+                fam = rng.choice(fams) if fams else None
+                acc = ans_in is True
+                ctx.count('membership:' + gname, [gname, repr(it)[:300]], True,
+                          sample=dict(gateset=gname, item=repr(it)[:100], accepted=ans_in) if rng.random() < 0.02 else None)
+                if is_op:
+                    rows.append(f'Bool.eqb (op_in_gateset GS {d.op(it)}) {"true" if acc else "false"} && Bool.eqb (validate_op GS {d.op(it)}) {"true" if ans_val is True else "false"}')
+                    meta.append((gname, it, f'in={ans_in} validate={ans_val}'))
+                else:
+                    gd = d.gate(it)
+                    rows.append(f'Bool.eqb (gateset_contains_gate GS {gd} (IGate {gd})) {"true" if acc else "false"}')
+                    meta.append((gname, it, f'in={ans_in}'))
+                if fam is not None and (not is_op or it.gate is not None or True):
+                    try:
+                        fans = it in fam
+                    except Exception as e:
+                        fans = type(e).__name__
+                    rows.append(f'Bool.eqb (family_contains {d.family(fam)} {d.item(it)}) {"true" if fans is True else "false"}')
+                    meta.append((gname + ':family:' + type(fam).__name__, it, f'{fam!r} contains -> {fans}'))
+                    ctx.count('membership:family', [repr(fam), repr(it)[:300]], True)
+            shards.append((gname, f'Definition GS := {gterm}.\nDefinition checks : list bool := [\n' + ';\n'.join(rows) + '].\nEval vm_compute in failing (fun b => b) checks.\n', meta))
+    outs = coq.coq_eval_many([(f'c07m_{ctx.seed}_{i}', GS_PRE + text) for i, (_, text, _) in enumerate(shards)], workers=12)
+    for (gname, _, meta), out in zip(shards, outs):
+        for idx in coq.parse_nat_list(coq.parse_evals(out)[0]):
+            where, it, ans = meta[idx]
+            kind = type(it.gate).__name__ if isinstance(it, cirq.Operation) and it.gate is not None else type(it.untagged if isinstance(it, cirq.Operation) else it).__name__
+            ctx.disagree('correspondence:membership', f'{where}: {it!r}'[:300], f'membership:{where}:{kind}',
+                         f'membership of {repr(it)[:200]} in gateset/family {where} differs from the documented rule (Cirq answers {ans})',
+                         dict(kind='membership', gateset=where, item=repr(it)[:400], cirq_answer=ans))
+
+
+def output_membership_checks(ctx, mods, tname, gs, out, checks, rec):
+    """(i) recomputed by the model: every operation of a compiler output is accepted by the described gateset."""
+    cirq = mods['cirq']
+    d = Describer(cirq)
+    try:
+        gterm = d.gateset(gs)
+        ops = '[' + ';\n '.join(d.op(o) for o in out.all_operations()) + ']'
+    except Unmodelled as e:
+        ctx.mark_broken('model:gateset-family', f'{tname}: {e}')
+        return
+    checks.append((f'compile:{tname}:membership', f'validate {gterm} {ops}', f'the membership model rejects an operation of the output of optimize_for_target_gateset({tname}) that Cirq accepts',
+                   dict(signature=f'compile:{tname}:membership-model', **rec)))
 
 
 # ---------------------------------------------------------------- routing
@@ -678,6 +941,9 @@ def evaluate(ctx, mods, checks, confirm):
             stream, _, desc, rep = sh[idx]
             rep = dict(rep)
             sig = rep.pop('signature')
+            if stream.endswith(':membership'):
+                ctx.mark_broken(f'correspondence:{stream}', desc + ': ' + rep.get('circuit', '')[:300])
+                continue
             try:
                 holds, detail, sig2, rep2 = confirm(mods, rep)
             except Exception as e:
@@ -706,6 +972,7 @@ def run(ctx):
     ctx.set_obligations(coq.compile_props('C07'))
     n = 1 if ctx.tier == 'quick' else 10
     checks = []
+    membership_stream(ctx, mods, n)
     compile_stream(ctx, mods, checks, 8 * n)
     routing_stream(ctx, mods, checks, 90 * n)
     evaluate(ctx, mods, checks, confirm)
